@@ -255,3 +255,13 @@ UNITS["lemmas"] = {
     ],
     "safety": {},
 }
+
+UNITS["lemmas_codec"] = {
+    "prelude": PRELUDE_ALL + ["90_codec.rs"],
+    "contracts": ["ctors.vc", "gens.vc"],
+    "pieces": types() + [
+        items("src/range_proof.rs", ["SERIALIZED_ELEMENT_SIZE", "FIXED_PROOF_ELEMENTS", "ENCODED_EXTENSION_SIZE"]),
+        text("spec/spec_codec.rs"), text("spec/lemmas_c15.rs"),
+    ],
+    "safety": {},
+}
